@@ -102,6 +102,9 @@ fn run(input: RunInput) -> ScenFuture {
         for k in 0..n_attempts {
             let strat = STRATEGIES[r.gen_range(0..STRATEGIES.len())];
             let role = r.gen_range(0..4); // 0 adv dials H; 1 H dials adv; 2 H dials adv expecting X; 3 H dials adv expecting K'
+            // (the padded replay next to a second handshake needs many tries to line up: a share of
+            // the attempts is given to it)
+            let (strat, role) = if r.gen_bool(0.12) { ("replay-x", 0) } else { (strat, role) };
             // a listener always presents a certificate: "no certificate" exists only for a dialer
             let strat = if strat == "no-cert" && role != 0 { "own" } else { strat };
             let mutate = |c: &CertificateDer<'static>, r: &mut rand::rngs::StdRng| {
@@ -128,7 +131,7 @@ fn run(input: RunInput) -> ScenFuture {
             // datagrams - and a second handshake of the adversary's, with its own certificate and
             // key, under way at the same time: whatever the listener keeps between the two messages
             // of one handshake belongs to that handshake
-            let padded = role == 0 && strat == "replay-x" && r.gen_bool(0.7);
+            let padded = role == 0 && strat == "replay-x";
             let mut padding: Option<CertificateDer<'static>> = None;
             let chain = if padded {
                 let mut pad_key = [0u8; 32];
@@ -240,9 +243,15 @@ fn run(input: RunInput) -> ScenFuture {
                                 let c2 = c.clone();
                                 tokio::spawn(async move {
                                     while let Ok((mut tx, mut rx)) = c2.accept_bi().await {
-                                        let _ = rx.read_to_end(1 << 16).await;
-                                        let hdrs = vec![("peer-id".to_string(), format!("{x_id}"))];
-                                        let _ = tx.write_all(&wire::encode_response(1, 200, &hdrs, format!("i-am-{x_id}").as_bytes())).await;
+                                        let req_bytes = rx.read_to_end(1 << 16).await.unwrap_or_default();
+                                        // (a request whose body says so is answered with an error status whose
+                                        // headers claim, in every way a header can, that it comes from X)
+                                        let (status, hdrs) = if req_bytes.windows(10).any(|w| w == b"fail-as-x!") {
+                                            (400, vec![("peer-id".to_string(), format!("{x_id}")), ("status-origin".to_string(), format!("{x_id}")), ("origin".to_string(), format!("{x_id}")), ("status-message".to_string(), format!("from {x_id}"))])
+                                        } else {
+                                            (200, vec![("peer-id".to_string(), format!("{x_id}"))])
+                                        };
+                                        let _ = tx.write_all(&wire::encode_response(1, status, &hdrs, format!("i-am-{x_id}").as_bytes())).await;
                                         let _ = tx.finish();
                                     }
                                 });
@@ -288,6 +297,17 @@ fn run(input: RunInput) -> ScenFuture {
                         }
                         if let Ok(resp) = rpc_bounded(&h, pid, Request::new(Bytes::from_static(b"hello")).with_extension(x_id), Duration::from_secs(3)).await {
                             check_id(&w, resp.peer_id().copied(), adv_id, "response-attributed-to-wrong-identity", &format!("role {role} strategy {strat}"));
+                        }
+                        // ... and through the typed client, whose error values carry an identity too
+                        if let Some(peer) = h.net.peer(pid) {
+                            let mut typed = anemo::rpc::client::Rpc::new(peer);
+                            let call = typed.unary::<Bytes, Bytes, _>(Request::new(Bytes::from_static(b"fail-as-x!")), anemo::rpc::codec::IdentityCodec::new("bytes"));
+                            if let Ok(Err(status)) = tokio::time::timeout(Duration::from_secs(3), call).await {
+                                if status.status() == anemo::types::response::StatusCode::BadRequest {
+                                    check_id(&w, status.peer_id().copied(), adv_id, "response-attributed-to-wrong-identity", &format!("error status through the typed client, role {role} strategy {strat}"));
+                                    w.probe("error-status-through-the-typed-client");
+                                }
+                            }
                         }
                         let _ = h.net.disconnect(pid);
                     }
